@@ -617,6 +617,112 @@ func c10Fragments(env *runEnv, r *rand.Rand) {
 	}
 }
 
+// c10Headers2: request headers a client controls, with bytes no well-behaved client sends.
+func c10HostileHeaders(env *runEnv) {
+	s := newL2Server(false, 0)
+	defer s.close()
+	hostile := []string{"R\xe9mi-RDP/2.0", "\xff\xfe", strings.Repeat("A", 60000), "", "a\tb", "\x80", "Mozilla/5.0 (\xc3\x28)"}
+	for _, name := range []string{"User-Agent", "X-Forwarded-For", "Rdg-Connection-Id", "Cookie", "Rdg-User-Id", "Origin", "Sec-WebSocket-Protocol", "Accept-Language"} {
+		for _, v := range hostile {
+			before := s.panics()
+			obs := "alive"
+			for _, upgrade := range []bool{true, false} {
+				c, err := dialRaw(s.inst)
+				if err != nil {
+					obs = "no-connection"
+					break
+				}
+				var sb strings.Builder
+				fmt.Fprintf(&sb, "RDG_OUT_DATA /remoteDesktopGateway/ HTTP/1.1\r\nHost: gw\r\n")
+				if name != "Rdg-Connection-Id" {
+					fmt.Fprintf(&sb, "Rdg-Connection-Id: {c10-hh-%d}\r\n", time.Now().UnixNano())
+				}
+				if upgrade {
+					fmt.Fprintf(&sb, "Connection: Upgrade\r\nUpgrade: websocket\r\nSec-WebSocket-Version: 13\r\nSec-WebSocket-Key: %s\r\n", base64.StdEncoding.EncodeToString(randomBytes(16)))
+				}
+				fmt.Fprintf(&sb, "%s: %s\r\n\r\n", name, v)
+				c.SetDeadline(time.Now().Add(time.Second))
+				c.Write([]byte(sb.String()))
+				bufio.NewReader(c).ReadString('\n')
+				c.Close()
+			}
+			if s.panics() > before {
+				obs = "PANIC"
+			}
+			env.count("c10.hostile-header." + obs)
+			env.emit("alive", fmt.Sprintf("header:%s:%s", name, hx([]byte(v[:min(len(v), 24)]))), obs)
+		}
+	}
+	// and the gateway still serves
+	obs := "alive"
+	if c, err := openTunnel(s.inst, tunnelScript{transport: "ws", id: "{c10-hh-probe}"}); err != nil {
+		obs = "no-upgrade"
+	} else {
+		obs = handshakeAnswered(c)
+		c.close()
+	}
+	env.emit("alive", "after-hostile-headers", obs)
+}
+
+// c10VerifierConcurrent: the NTLM verifier under concurrent well-formed exchanges (right and wrong
+// passwords, several users): a runtime abort of the service is the end of every authentication.
+func c10VerifierConcurrent(env *runEnv) {
+	srv := authntlm.NewNTLMAuth(database.NewConfig([]authconfig.UserConfig{{Username: "1", Password: "pw1"}, {Username: "2", Password: "pw2"}, {Username: "3", Password: "pw3"}}))
+	var wg sync.WaitGroup
+	stop := time.Now().Add(1500 * time.Millisecond)
+	if env.thorough() {
+		stop = time.Now().Add(15 * time.Second)
+	}
+	bad := make([]string, 8)
+	for w := 0; w < 8; w++ {
+		wg.Add(1)
+		go func(w int) {
+			defer wg.Done()
+			for i := 0; time.Now().Before(stop); i++ {
+				user := fmt.Sprint(1 + (w+i)%3)
+				pw := "pw" + user
+				if (w+i)%4 == 0 {
+					pw = "wrong"
+				}
+				sess := fmt.Sprintf("192.0.2.%d:%d", w, 40000+i)
+				cl := ntlm.V2ClientSession{}
+				cl.SetUserInfo(user, pw, "")
+				n, _ := cl.GenerateNegotiateMessage()
+				r1, err := srv.Authenticate(&auth.NtlmRequest{Session: sess, NtlmMessage: base64.StdEncoding.EncodeToString(n.Bytes())})
+				if err != nil || r1.NtlmMessage == "" {
+					bad[w] = "honest-negotiate-refused"
+					return
+				}
+				chb, _ := base64.StdEncoding.DecodeString(r1.NtlmMessage)
+				cm, err := ntlm.ParseChallengeMessage(chb)
+				if err != nil {
+					bad[w] = "challenge-unparseable"
+					return
+				}
+				cl.ProcessChallengeMessage(cm)
+				am, _ := cl.GenerateAuthenticateMessage()
+				r2, _ := srv.Authenticate(&auth.NtlmRequest{Session: sess, NtlmMessage: base64.StdEncoding.EncodeToString(am.Bytes())})
+				if pw != "wrong" && (r2 == nil || !r2.Authenticated) {
+					bad[w] = "honest-client-refused"
+					return
+				}
+				if pw == "wrong" && r2 != nil && r2.Authenticated {
+					bad[w] = "wrong-password-accepted"
+					return
+				}
+			}
+		}(w)
+	}
+	wg.Wait()
+	obs := "alive"
+	for _, b := range bad {
+		if b != "" {
+			obs = b
+		}
+	}
+	env.emit("alive", "ntlm-verifier:8-concurrent-clients", obs)
+}
+
 // c10Teardown: tunnels that end (close, protocol error, disconnect) while their host is still sending.
 // A fault in a relay goroutine is outside every recover and takes the whole process down: here that is
 // the harness process itself, which the check reports as a crash of the gateway code.
@@ -685,6 +791,8 @@ func streamC10(env *runEnv) {
 	c10NtlmParse(env, r)
 	c10Buffers(env)
 	c10Orderings(env)
+	c10HostileHeaders(env)
+	c10VerifierConcurrent(env)
 	c10Teardown(env, r)
 	c10Binary(env, r)
 }
